@@ -290,9 +290,6 @@ def shapes(spec, kind, value):
     """all known-finding shapes of (spec, value)"""
     out = []
     eff = spec
-    if len(spec) >= 2 and spec[0] == "!" and spec[1] in "srab":
-        out.append("conv-prefix-accepted")
-        eff = spec[2:]
     p = py_parse_spec(eff)
     if p is not None:
         _shapes(p, eff, kind, value, out)
@@ -313,8 +310,6 @@ def _repr_tie_even(v):
 
 def _shapes(p, eff, kind, value, out):
     add = out.append
-    if p.width is not None and p.width >= 2 ** 31:
-        add("width-wraps-i32")
     floaty = kind == "f" or (kind in "ib" and p.type in FLOAT_TYPES)
     numeric = kind in "ibf"
     if p.z:
@@ -326,27 +321,15 @@ def _shapes(p, eff, kind, value, out):
             return
         if p.align == "=":
             add("str-eq-align-accepted")
-        if p.sign:
-            add("str-sign-accepted")
-        if p.alt:
-            add("str-alt-accepted")
+        if p.sign or p.alt:
+            return                      # rejected by both
         w = p.width or 0
         if p.prec is not None and 2 ** 31 <= p.prec < 2 ** 63:
             add("precision-over-i32-rejected")
-        if p.prec is not None:
-            if nonascii(value[:p.prec]) or (p.eff_fill is not None and nonascii(p.eff_fill) and w > len(value)):
-                add("str-precision-bytes")
-            if p.prec < w:
-                add("str-precision-after-padding")
-        if p.zero and p.fill is None and p.align is None and w > len(value):
+        kept = len(value) if p.prec is None else min(len(value), p.prec)
+        if p.zero and p.fill is None and p.align is None and w > kept:
             add("str-zero-flag-pads-left")
         return
-    if kind == "b" and p.type is None:
-        if eff != "":
-            add("bool-default-type-ignores-spec")
-        return
-    if numeric and p.group and p.type in tuple("eEgG%"):
-        add("group-exp-type-panic")
     if floaty and p.prec is not None and p.prec > 65532:
         add("precision-over-65535-panic")
     if kind in "ib" and floaty and F64_MAX_INT < abs(int(value)) < 2 ** 1024 - 2 ** 970:
@@ -354,17 +337,11 @@ def _shapes(p, eff, kind, value, out):
     if kind in "ib" and p.type == "c":
         if p.sign or p.alt or p.group:
             return                      # rejected by both
-        if p.prec is not None:
-            add("int-c-precision-accepted")
-        if 0xD800 <= int(value) <= 0xDFFF:
-            add("int-c-surrogate-panic")
-        if int(value) >= 128 and (p.width or 0) > 1:
-            add("int-c-nonascii-width")
+        if p.prec is None and 0xD800 <= int(value) <= 0xDFFF:
+            add("int-c-surrogate-rejected")
         return
     if kind == "f" and p.type is None and math.isfinite(value):
         v = value
-        if p.group and "e" in (repr(abs(v)) if p.prec is None else format(abs(v), ".%d" % min(p.prec, 800))):
-            add("float-group-in-exponent-text")
         if p.prec is None and _repr_tie_even(v):
             add("float-repr-tie-rounds-up")
         if p.prec is None and p.alt and "e" in repr(v) and "." not in repr(v):
@@ -375,39 +352,21 @@ def _shapes(p, eff, kind, value, out):
                 add("float-default-type-precision-no-dot-zero")
     if kind == "f" and p.type == "%" and p.alt and p.prec == 0 and math.isfinite(value) and math.isinf(value * 100.0):
         add("float-percent-overflow-alt")
-    if numeric and p.group and p.width is not None:
-        if not p.zero_eq:
-            add("group-width-zero-pads")
-        elif kind == "f" and not math.isfinite(value):
-            add("group-nonfinite-zero-pad")
 
 
 # which observed failures a shape explains (so that a different failure on the same input is reported)
 _EXPLAINS = {
-    "conv-prefix-accepted": lambda got, exp: exp == "err" and got.startswith("ok:"),
     "z-flag-rejected": lambda got, exp: got == "err" and not exp == "err",
-    "group-exp-type-panic": lambda got, exp: got == "panic",
     "str-eq-align-accepted": lambda got, exp: exp == "err" and got.startswith("ok:"),
-    "str-sign-accepted": lambda got, exp: exp == "err" and got.startswith("ok:"),
-    "str-alt-accepted": lambda got, exp: exp == "err" and got.startswith("ok:"),
-    "str-precision-bytes": lambda got, exp: got == "panic" or got.startswith("ok:"),
-    "str-precision-after-padding": lambda got, exp: got.startswith("ok:"),
     "str-zero-flag-pads-left": lambda got, exp: got.startswith("ok:"),
-    "bool-default-type-ignores-spec": lambda got, exp: got in ("ok:" + hexs("True"), "ok:" + hexs("False")),
-    "int-c-precision-accepted": lambda got, exp: exp == "err" and got.startswith("ok:"),
-    "int-c-nonascii-width": lambda got, exp: got.startswith("ok:") and exp != "err",
-    "int-c-surrogate-panic": lambda got, exp: got in ("panic", "err"),   # a Rust String cannot hold a lone surrogate
-    "group-width-zero-pads": lambda got, exp: got.startswith("ok:") and exp != "err",
-    "group-nonfinite-zero-pad": lambda got, exp: got.startswith("ok:") and exp != "err",
+    "int-c-surrogate-rejected": lambda got, exp: got == "err" and exp != "err",  # a Rust String cannot hold a lone surrogate
     "int-float-above-max-rejected": lambda got, exp: got == "err" and exp != "err",
-    "float-group-in-exponent-text": lambda got, exp: got.startswith("ok:") and exp != "err",
     "float-default-type-alt-no-point": lambda got, exp: got.startswith("ok:") and exp != "err",
     "float-repr-tie-rounds-up": lambda got, exp: got.startswith("ok:") and exp != "err",
     "float-default-type-precision-no-dot-zero": lambda got, exp: got.startswith("ok:") and exp != "err",
     "float-percent-overflow-alt": lambda got, exp: got.startswith("ok:") and exp != "err",
     "precision-over-65535-panic": lambda got, exp: got == "panic",
     "precision-over-i32-rejected": lambda got, exp: got == "err" and exp != "err",
-    "width-wraps-i32": lambda got, exp: (isinstance(exp, tuple) or exp == "err") and (got == "panic" or got.startswith("ok:")),
 }
 
 
@@ -484,33 +443,38 @@ def classify(req, impl_out, model_out, failure):
 
 PROBES = [
     # (key, spec, value)
-    ("conv-prefix-accepted", "!r", 1),
     ("z-flag-rejected", "z.1f", -0.0),
-    ("group-exp-type-panic", ",e", 1.0),
     ("str-eq-align-accepted", "=5", "a"),
-    ("str-sign-accepted", "+", "a"),
-    ("str-alt-accepted", "#", "a"),
-    ("str-precision-bytes", ".1", "é"),
-    ("str-precision-after-padding", "5.2", "abc"),
     ("str-zero-flag-pads-left", "05", "a"),
-    ("bool-default-type-ignores-spec", "5", True),
-    ("int-c-precision-accepted", ".2c", 65),
-    ("int-c-nonascii-width", "5c", 255),
-    ("int-c-surrogate-panic", "c", 0xD800),
-    ("group-width-zero-pads", "10,", 1234),
-    ("group-nonfinite-zero-pad", "08,", float("inf")),
     ("int-float-above-max-rejected", "e", F64_MAX_INT + 1),
-    ("float-group-in-exponent-text", ",", 1e100),
     ("float-default-type-alt-no-point", "#", 1e100),
     ("float-repr-tie-rounds-up", "", 600377706905611.2),
     ("float-default-type-precision-no-dot-zero", ".5", 1.0),
     ("float-percent-overflow-alt", "#.0%", 1.7976931348623157e308),
     ("precision-over-65535-panic", ".65536f", 1.0),
-    ("width-wraps-i32", "4294967301", 1),
     ("precision-over-i32-rejected", ".2147483648", "a"),
+    ("int-c-surrogate-rejected", "c", 0xD800),
 ]
 
 REGRESSION = [
+    # former known-finding probes, repaired in /repo (commit in the comment): a regression is a VIOLATION
+    ("!r", 1),  # conv-prefix-accepted e5c4721
+    (",e", 1.0),  # group-exp-type-panic a6de50b
+    ("+", "a"),  # str-sign-accepted 19885fd
+    ("#", "a"),  # str-alt-accepted 19885fd
+    (".1", "é"),  # str-precision-bytes 19885fd
+    ("5.2", "abc"),  # str-precision-after-padding 19885fd
+    ("5", True),  # bool-default-type-ignores-spec 54c4118
+    (".2c", 65),  # int-c-precision-accepted b3fed62
+    ("5c", 255),  # int-c-nonascii-width b3fed62
+    ("c", 0xD800),  # int-c-surrogate-panic b3fed62
+    ("10,", 1234),  # group-width-zero-pads a6de50b
+    ("08,", float("inf")),  # group-nonfinite-zero-pad a6de50b
+    (",", 1e100),  # float-group-in-exponent-text a6de50b
+    ("4294967301", 1),  # width-wraps-i32 b59d482
+    ("2147483648", 1), ("10,", 1234567), (">10_x", 48879), ("015,.2f", float("inf")), ("012,e", 1234.5), (",g", 1e100), ("_%", 0.5),
+    ("+.3", "abc"), ("#5", "é"), ("10.2", "日本語x"), ("é<6.2", "日本語x"), ("05", True), (",", True), ("#x", True), (" ", False),
+    ("6c", 233), ("06c", 0x65E5), (".0c", 65), ("c", 0xDFFF), ("c", 0xE000), ("c", 0xD7FF),
     # fixed in /repo by 5be0365 (is_integer exact) and 668a737 (format_general precision 0 -> 1); kept as regressions
     ("", 0.9999999999999999), (".0", 0.5), (".0", 0.05), (".0", 5.0), ("#.0", 0.5), (",.0", 0.5), ("", 1.0000000000000002),
     ("012,", 1234567), ("0=12,", 1234567), ("08,", -1234), ("07,", 1234), ("06,", 1234), ("05,", 1234),
